@@ -1,7 +1,7 @@
 (* Props/C16.v — property C16: regression metrics and linear-fit helpers equal their mathematical definitions.
    Only statements, each closed by `exact`, with its assumptions printed.  Tier A (RNum). *)
 From Coq Require Import Reals List ZArith PrimFloat.
-From Knee Require Import Num NumR NumFloat NpList Model.Metrics Model.LinearFit Proofs.MetricsFacts Proofs.LinearFitFacts.
+From Knee Require Import Num NumR NumFloat NpList Model.Metrics Model.LinearFit Proofs.MetricsFacts Proofs.LinearFitFacts Proofs.LinearFitGeneric.
 Import ListNotations.
 Local Open Scope R_scope.
 
@@ -95,6 +95,27 @@ Theorem C16_wrappers : forall (P : list (R * R)) (b m eps : R) k,
   @linear_r2_points RNum P (b, m) k = @r2 RNum (map snd P) (map (fun xi => m * xi + b) (map fst P)) k.
 Proof. exact points_wrappers. Qed.
 Print Assumptions C16_wrappers.
+(* Tier S: the same for EVERY numeric instance (binary64 with every rounding, NaN, inf) and EVERY eps (0, negative, NaN
+   included): wrapper = the same metric with the same eps on linear_transform of the first column — the bit-for-bit
+   "wrapper = metric" conjuncts of the judge, also judged at the explicit eps = 0 *)
+Theorem C16_wrappers_every_num : forall (N : Num) (P : list (T N * T N)) (c : T N * T N) (eps : T N),
+  @rmse_points N P c = @rmse N (map snd P) (@linear_transform N (map fst P) c) /\
+  @rmsle_points N P c = @rmsle N (map snd P) (@linear_transform N (map fst P) c) /\
+  @rmspe_points N P c eps = @rmspe N (map snd P) (@linear_transform N (map fst P) c) eps /\
+  @smape_points N P c eps = @smape N (map snd P) (@linear_transform N (map fst P) c) eps /\
+  @rpd_points N P c eps = @rpd N (map snd P) (@linear_transform N (map fst P) c) eps /\
+  @linear_residuals_points N P c = @residuals N (map snd P) (@linear_transform N (map fst P) c) /\
+  @linear_fit_residuals_points N P =
+    @residuals N (map snd P) (@linear_transform N (map fst P) (@linear_fit N (map fst P) (map snd P))) /\
+  @linear_transform_points N P c = @linear_transform N (map fst P) c.
+Proof. exact @points_wrappers_gen. Qed.
+Print Assumptions C16_wrappers_every_num.
+(* non-vacuity on binary64 at eps = 0: the wrapper and the metric give the same double (here a division by y = 0 -> inf) *)
+Example C16_wrappers_eps0_example :
+  @smape_points FloatNum [(0, 0); (1, 2); (2, 1)]%float (0.5, 0.25)%float 0%float
+  = @smape FloatNum [0; 2; 1]%float (@linear_transform FloatNum [0; 1; 2]%float (0.5, 0.25)%float) 0%float /\
+  f_isnan (@smape_points FloatNum [(0, 0); (1, 2); (2, 1)]%float (0.5, 0.25)%float 0%float) = false.
+Proof. vm_compute. split; reflexivity. Qed.
 Theorem C16_linear_transform : forall (x : list R) (b m : R), @linear_transform RNum x (b, m) = map (fun xi => m * xi + b) x.
 Proof. exact linear_transform_R. Qed.
 Print Assumptions C16_linear_transform.
